@@ -67,13 +67,16 @@ func (vc *VC) heapWF(name string, h Term, alloc Term) Term {
 		return ""
 	}
 	refs := vc.refTerms(et, cell, 0)
-	if len(refs) == 0 {
+	// interface-typed components hold nil or a value of an implementing dynamic type
+	ifacts := vc.ifaceFacts(et, cell, 0)
+	if len(refs) == 0 && ifacts == "true" {
 		return ""
 	}
 	var cs []Term
 	for _, r := range refs {
 		cs = append(cs, app("<", r, alloc), app("<=", "0", r))
 	}
+	cs = append(cs, ifacts)
 	return fmt.Sprintf("(forall %s (! %s :pattern (%s)))", binders, and(cs...), cell)
 }
 
@@ -93,4 +96,28 @@ func (vc *VC) flushWF(s *State) {
 		}
 	}
 	vc.pendingWF = map[string]Term{}
+}
+
+// ifaceFacts: typing facts for the interface-typed components of a value (directly or in struct fields).
+func (vc *VC) ifaceFacts(t types.Type, e Term, depth int) Term {
+	switch u := t.Underlying().(type) {
+	case *types.Interface:
+		if u.NumMethods() > 0 {
+			if f := vc.closedFact(t, e); f != "" {
+				return f
+			}
+			return or(app("(_ is dnil)", e), app(vc.implFun(t), e))
+		}
+	case *types.Struct:
+		if depth > 2 {
+			return "true"
+		}
+		ss := vc.S.structOf(t)
+		var fs []Term
+		for i := 0; i < u.NumFields(); i++ {
+			fs = append(fs, vc.ifaceFacts(u.Field(i).Type(), app(ss.fields[i], e), depth+1))
+		}
+		return and(fs...)
+	}
+	return "true"
 }
